@@ -27,6 +27,7 @@ enum {
 	P_LFQ_ENQ, P_LFQ_DEQ,						/* lfq */
 	P_HT_ADD, P_HT_ADD_UNIQUE, P_HT_ADD_REPLACE, P_HT_DEL, P_HT_LOOKUP, P_HT_TRAVERSE, P_HT_RESIZE, /* lfht */
 	P_RS_LOCK, P_RS_SYNC, P_RS_QS,					/* read side */
+	P_FORK_BRACKET,							/* the call_rcu fork handlers, without the fork */
 	P_NK
 };
 static const char *const opname[] = {
@@ -34,7 +35,8 @@ static const char *const opname[] = {
 	"push", "pop_all", "pop_nb", "pop",
 	"lfq_enq", "lfq_deq",
 	"ht_add", "ht_add_unique", "ht_add_replace", "ht_del", "ht_lookup", "ht_traverse", "ht_resize",
-	"read_lock_unlock", "synchronize_rcu", "quiescent_state"
+	"read_lock_unlock", "synchronize_rcu", "quiescent_state",
+	"fork_handlers_bracket"
 };
 
 struct pnode {
@@ -366,6 +368,24 @@ static void do_op(int me, struct op *op)
 	case P_RS_SYNC:
 		F->synchronize_rcu();
 		break;
+	case P_FORK_BRACKET: {
+		/*
+		 * A thread on its way through fork(): helper threads and the hash table's resize worker are
+		 * paused between the two handlers. Whoever is suspended in there must not hold up the
+		 * non-blocking operations of the others (never measured itself; qsbr: offline, 8.3).
+		 */
+		int k;
+		if (F->is_qsbr)
+			F->thread_offline();
+		F->call_rcu_before_fork();
+		for (k = 0; k < 3 + op->a; k++)
+			usim_pause();
+		F->call_rcu_after_fork_parent();
+		if (F->is_qsbr)
+			F->thread_online();
+		usim_probe("progress.fork_handlers_bracket");
+		break;
+	}
 	}
 	uatomic_set(&in_op[me], 0);
 }
@@ -399,7 +419,7 @@ static void *p_thread(void *arg)
 
 void scen_progress(void)
 {
-	int t, i, voters = 0, id = 0;
+	int t, i, voters = 0, id = 0, bracket_done = 0;
 	long left = 0;
 
 	no_faults();
@@ -480,6 +500,11 @@ void scen_progress(void)
 				else if (r < 75) op->kind = P_RS_QS;
 				else { op->kind = P_RS_SYNC; op->b = 0; }
 				break;
+			}
+			if (!cons && !bracket_done && (sub == S_LFHT || sub == S_LFQ) && rnd(12) == 0) {
+				op->kind = P_FORK_BRACKET;
+				op->b = 0;
+				bracket_done = 1;
 			}
 			usim_describe("%s\"%s%s\"", i ? "," : "", opname[op->kind], op->b ? "*" : "");
 		}
